@@ -41,6 +41,7 @@ var shims = map[string]string{
 	"vsync":   "sync",
 	"vatomic": "sync/atomic",
 	"vnet":    "net",
+	"vsched":  "", // the cooperative scheduler behind vsync/vatomic: hand-written only
 }
 
 func die(f string, a ...any) {
@@ -65,7 +66,7 @@ func main() {
 		}
 		found := false
 		for s, std := range shims {
-			if std == p {
+			if std == p && std != "" {
 				rw[p] = modPath + "/vx/" + s
 				found = true
 			}
@@ -104,6 +105,9 @@ func main() {
 			for _, n := range declaredNames(c, b) {
 				skip[n] = true
 			}
+		}
+		if shims[s] == "" {
+			continue
 		}
 		gen := genShim(shims[s], skip)
 		dst := filepath.Join(dir, "zz_gen.go")
@@ -182,11 +186,159 @@ func main() {
 		replace[filepath.Join(pkgDir, "zz_verif_export.go")] = dst
 	}
 
+	// 4. generated state reset (C40): every file-scope variable of the listed files gets its declared
+	// initial value back, so that each explored execution starts from the package's initial state,
+	// whatever variables the current working tree declares there.
+	for _, rs := range []struct {
+		pkg   string
+		files []string // nil = all non-test files
+	}{{"pkg/font", nil}, {"pkg/pdfcpu", []string{"certificate.go"}}, {"pkg/pdfcpu/model", []string{"certificate.go"}}} {
+		gen, err := genReset(filepath.Join(*repo, rs.pkg), rs.files)
+		if err != nil {
+			die("reset %s: %v", rs.pkg, err)
+		}
+		if len(rw) > 0 {
+			gen, _ = rewriteImports("zz_verif_reset.go", gen, rw)
+		}
+		dst := filepath.Join(*out, "reset", strings.ReplaceAll(rs.pkg, "/", "__")+".go")
+		os.MkdirAll(filepath.Dir(dst), 0o755)
+		os.WriteFile(dst, gen, 0o644)
+		replace[filepath.Join(*repo, rs.pkg, "zz_verif_reset.go")] = dst
+	}
+
 	js, _ := json.MarshalIndent(map[string]any{"Replace": replace}, "", " ")
 	if err := os.WriteFile(filepath.Join(*out, "overlay.json"), js, 0o644); err != nil {
 		die("%v", err)
 	}
 	fmt.Printf("ovlgen: %d files rewritten, %d export files, %d shim packages -> %s\n", nrew, len(exps), len(shims), *out)
+}
+
+// genReset emits VerifResetGenerated() for a package directory: an assignment of the declared initial
+// value to every file-scope variable whose initialiser is absent or cheap and side-effect free
+// (empty composite literal, &T{}, make, basic literal). Error sentinels and tables are left alone.
+func genReset(dir string, only []string) ([]byte, error) {
+	fset := token.NewFileSet()
+	ents, err := os.ReadDir(dir)
+	if err != nil {
+		return nil, err
+	}
+	pkgName := ""
+	var body bytes.Buffer
+	imports := map[string]string{} // name -> path
+	used := map[string]bool{}
+	for _, e := range ents {
+		n := e.Name()
+		if !strings.HasSuffix(n, ".go") || strings.HasSuffix(n, "_test.go") || strings.HasPrefix(n, "zz_verif") {
+			continue
+		}
+		if only != nil {
+			ok := false
+			for _, o := range only {
+				if o == n {
+					ok = true
+				}
+			}
+			if !ok {
+				continue
+			}
+		}
+		src, err := os.ReadFile(filepath.Join(dir, n))
+		if err != nil {
+			return nil, err
+		}
+		f, err := parser.ParseFile(fset, n, src, parser.SkipObjectResolution)
+		if err != nil {
+			return nil, err
+		}
+		if f.Name.Name != "" && pkgName == "" {
+			pkgName = f.Name.Name
+		}
+		if strings.Contains(string(src[:bytes.Index(src, []byte("package "))+1]), "//go:build") {
+			continue // platform specific files are left alone
+		}
+		for _, is := range f.Imports {
+			p := strings.Trim(is.Path.Value, "\"`")
+			name := p[strings.LastIndex(p, "/")+1:]
+			if is.Name != nil {
+				name = is.Name.Name
+			}
+			imports[name] = p
+		}
+		text := func(nd ast.Node) string {
+			return string(src[fset.Position(nd.Pos()).Offset:fset.Position(nd.End()).Offset])
+		}
+		cheap := func(x ast.Expr) bool {
+			switch v := x.(type) {
+			case *ast.BasicLit:
+				return true
+			case *ast.CompositeLit:
+				return len(v.Elts) == 0
+			case *ast.UnaryExpr:
+				if cl, ok := v.X.(*ast.CompositeLit); ok && v.Op == token.AND {
+					return len(cl.Elts) == 0
+				}
+			case *ast.CallExpr:
+				if id, ok := v.Fun.(*ast.Ident); ok && id.Name == "make" {
+					return true
+				}
+			case *ast.Ident:
+				return v.Name == "nil" || v.Name == "true" || v.Name == "false"
+			}
+			return false
+		}
+		note := func(nd ast.Node) {
+			ast.Inspect(nd, func(x ast.Node) bool {
+				if se, ok := x.(*ast.SelectorExpr); ok {
+					if id, ok := se.X.(*ast.Ident); ok {
+						used[id.Name] = true
+					}
+				}
+				return true
+			})
+		}
+		for _, d := range f.Decls {
+			gd, ok := d.(*ast.GenDecl)
+			if !ok || gd.Tok != token.VAR {
+				continue
+			}
+			for _, sp := range gd.Specs {
+				vs := sp.(*ast.ValueSpec)
+				for i, name := range vs.Names {
+					if name.Name == "_" {
+						continue
+					}
+					switch {
+					case len(vs.Values) == 0 && vs.Type != nil:
+						fmt.Fprintf(&body, "\t%s = *new(%s)\n", name.Name, text(vs.Type))
+						note(vs.Type)
+					case len(vs.Values) == len(vs.Names) && cheap(vs.Values[i]):
+						fmt.Fprintf(&body, "\t%s = %s\n", name.Name, text(vs.Values[i]))
+						note(vs.Values[i])
+					}
+				}
+			}
+		}
+	}
+	var b bytes.Buffer
+	fmt.Fprintf(&b, "//go:build verif\n\npackage %s\n\n", pkgName)
+	var names []string
+	for n := range used {
+		if _, ok := imports[n]; ok {
+			names = append(names, n)
+		}
+	}
+	sort.Strings(names)
+	if len(names) > 0 {
+		b.WriteString("import (\n")
+		for _, n := range names {
+			fmt.Fprintf(&b, "\t%s %q\n", n, imports[n])
+		}
+		b.WriteString(")\n\n")
+	}
+	b.WriteString("// VerifResetGenerated gives every resettable file-scope variable its declared initial value back.\nfunc VerifResetGenerated() {\n")
+	b.Write(body.Bytes())
+	b.WriteString("}\n")
+	return b.Bytes(), nil
 }
 
 func run(dir string, name string, args ...string) string {
